@@ -242,6 +242,11 @@ def check(env, juncs, mode, every, case):
         probs.append(('stdout-malformed', 'stdout is not well-formed for mode %s: %s | %r' % (mode, e, (rb.stdout or rs.stdout)[:80])))
         return probs
     empty = vs in (0, [], None)
+    if mode == 'n' and len(juncs) == 1 and not empty:
+        j = juncs[0][1]
+        damaged = (j[0] == 'prefix' and j[1] < 72) or (j[0] == 'set' and j[1] in (0, 1, 48, 49)) or j[0] in ('empty', 'byte')
+        if damaged:
+            probs.append(('count-damaged-header', 'a file whose header is damaged (%s) is counted as a PEL' % (list(j),)))
     if empty:
         if rb.stdout != rg.stdout:
             probs.append(('disturbed', 'stdout with the (undecodable) junk present differs from stdout without it'))
